@@ -74,13 +74,14 @@ def write_if_changed(path, text):
 
 # ------------------------------------------------------------------------------------------
 # harness
-_harness_built = False
+_harness_built = set()
 
 
-def build_harness():
-    """cargo build of the harness against /repo's current working tree, hooks enabled."""
-    global _harness_built
-    if _harness_built:
+def build_harness(bins=None):
+    """cargo build of the harness against /repo's current working tree, hooks enabled.
+    bins: list of binary names (None = everything; sh_probe is always built)."""
+    key = tuple(sorted(bins)) if bins else ('*',)
+    if key in _harness_built or ('*',) in _harness_built:
         return True, ''
     with Lock('cargo'):
         lock = os.path.join(HARNESS, 'Cargo.lock')
@@ -88,9 +89,15 @@ def build_harness():
         if not os.path.exists(lock) and os.path.exists(src):
             import shutil
             shutil.copy(src, lock)
-        rc, out, _ = sh('cargo build --offline 2>&1', cwd=HARNESS, env={'RUSTFLAGS': RUSTFLAGS}, timeout=900)
-    _harness_built = rc == 0
+        sel = '' if not bins else ' '.join('--bin ' + b for b in sorted(set(bins) | {'sh_probe'}))
+        rc, out, _ = sh('cargo build --offline %s 2>&1' % sel, cwd=HARNESS, env={'RUSTFLAGS': RUSTFLAGS}, timeout=900)
+    if rc == 0:
+        _harness_built.add(key)
     return rc == 0, out
+
+
+def bin_path(name):
+    return os.path.join(HARNESS, 'target', 'debug', name)
 
 
 def measured_consts():
@@ -354,8 +361,8 @@ class Ctx:
         print('[%s %6.1fs]' % (self.prop, time.time() - self.t0), *a, flush=True)
 
     # --- steps -----------------------------------------------------------------------
-    def harness(self):
-        ok, out = build_harness()
+    def harness(self, bins=None):
+        ok, out = build_harness(bins)
         if not ok:
             self.broken.append({'kind': 'harness-build', 'name': 'cargo build of the harness against /repo', 'detail': out[-3000:]})
             self.log('harness build FAILED')
